@@ -45,6 +45,7 @@ def cases(tier, seed):
         for s in F.P_ALL:
             cf = ((),) if F.has_zero(s) else ((), ("dominated_operations", "non_idle_machines"))
             out.append(("time", s, cf))
+        out.append(("tlc", 2))
     else:
         for s in F.K4():
             out.append(("time", s, ((),)))
